@@ -169,6 +169,7 @@ class Item:
         self.rules_applied = []
         self.hints_lost = []
         self.clauses = []
+        self.raw_text = buf.text  # as cut from the repository, before any rule or insertion
 
     # -- searching -----------------------------------------------------------------------------
     def _code_find(self, regex, lo=0, hi=None, what=None, nth=None, flags=re.S):
@@ -534,3 +535,46 @@ class Unit:
         out.append("fn main() {}")
         org.append(("header",))
         return "\n".join(out) + "\n", org
+
+
+# ----------------------------------------------------------------------------------------------
+# structural fingerprints: does a function still have the control structure the sidecar's proof was written for?
+
+_FP = re.compile(r"\b(if|else|match|loop|while|for|return|break|continue)\b|([A-Za-z_]\w*)\s*(?:::<[^>]*>)?\s*\(|(=>)")
+
+
+def fn_fingerprints(raw_text):
+    """{fn name: sha1 of its sequence of control keywords, match arms and called names}"""
+    out = {}
+    mask = code_mask(raw_text)
+    for m in re.finditer(r"\bfn\s+(\w+)", raw_text):
+        if not mask[m.start()]:
+            continue
+        try:
+            p = raw_text.index("(", m.end())
+            j = match_close(raw_text, mask, p) + 1
+            depth = 0
+            while j < len(raw_text):
+                if mask[j]:
+                    c = raw_text[j]
+                    if c in "([":
+                        depth += 1
+                    elif c in ")]":
+                        depth -= 1
+                    elif c == "{" and depth == 0:
+                        break
+                    elif c == ";" and depth == 0:
+                        j = -1
+                        break
+                j += 1
+            if j < 0 or j >= len(raw_text):
+                continue
+            k = match_close(raw_text, mask, j)
+        except (ValueError, Lost):
+            continue
+        toks = []
+        for t in _FP.finditer(raw_text, j, k):
+            if mask[t.start()]:
+                toks.append(t.group(1) or t.group(2) or t.group(3))
+        out[m.group(1)] = hashlib.sha1(" ".join(toks).encode()).hexdigest()[:16]
+    return out
